@@ -2066,6 +2066,7 @@ class ViewsConfiguratorMixin:
         info = self._get_static_info()
         info.add(self, name, spec, **kw)
 
+    @action_method
     def add_cache_buster(self, path, cachebust, explicit=False):
         """
         Add a cache buster to a set of files on disk.
